@@ -84,3 +84,98 @@ PROPS = {
                    "node areas sum to the triangles' area (xtensor expression algebra, nonlinear floating point: out of reach)"],
     ),
 }
+
+
+# ====================================================================== set_neighbors: second loop (over the unique edges)
+# `for (const auto& edge : edges_count)`: the unordered_map is modelled by the list of its entries -- unique edge keys (up to
+# tri_edge_equal) with their occurrence counts, in arbitrary order (ASSUMED container semantics: the first loop's insert/increment
+# builds exactly that).  The loop body is outlined; neighbour lists are fixed-capacity rows (capacity = stated precondition).
+from fv.extract import RB
+from spec.graphmodel import conj, disj
+
+NB_CAP = 8
+SN_MODEL = r"""
+#ifndef FSL_TRI_SN
+#define FSL_TRI_SN
+#define NB_CAP 8
+size_t TG;           /* ghost node */
+size_t TE;           /* ghost edge (index into the entry list) */
+#define NBI(x, s) m_neighbors_indices[(x) * NB_CAP + (s)]
+#define NBD(x, s) m_neighbors_distances[(x) * NB_CAP + (s)]
+#define NBN(x) m_neighbors_n[(x)]
+#endif
+"""
+SN_PARAMS = ("size_t m_size, size_t n_edges, const size_t *edge_first, const size_t *edge_second, const size_t *edge_count, const double *points, "
+             "_Bool *m_boundary_nodes, size_t *m_neighbors_indices, double *m_neighbors_distances, size_t *m_neighbors_n")
+SN_ARGS = "m_size, n_edges, edge_first, edge_second, edge_count, points, m_boundary_nodes, m_neighbors_indices, m_neighbors_distances, m_neighbors_n"
+SN_FRESH = r"""
+__CPROVER_requires(0 < m_size && m_size <= ((size_t) 1 << 40) && n_edges <= ((size_t) 1 << 40))
+__CPROVER_requires(__CPROVER_is_fresh(edge_first, n_edges * 8 + 8) && __CPROVER_is_fresh(edge_second, n_edges * 8 + 8) && __CPROVER_is_fresh(edge_count, n_edges * 8 + 8))
+__CPROVER_requires(__CPROVER_is_fresh(points, m_size * 16) && __CPROVER_is_fresh(m_boundary_nodes, m_size))
+__CPROVER_requires(__CPROVER_is_fresh(m_neighbors_indices, m_size * 64) && __CPROVER_is_fresh(m_neighbors_distances, m_size * 64) && __CPROVER_is_fresh(m_neighbors_n, m_size * 8))
+__CPROVER_requires(TG < m_size && TE < n_edges && edge_first[TE] < m_size && edge_second[TE] < m_size && edge_first[TE] != edge_second[TE])
+"""
+SN_STEP_RULES = [
+    R(r"const edge_type& edge_points = edge\.first;", "const size_t ep_first = edge_first[ek], ep_second = edge_second[ek]; "
+      "FSL_PRE(ep_first < m_size && ep_second < m_size && ep_first != ep_second); /* triangle vertices are distinct node indices (planar triangulation: input precondition instance) */", 1),
+    R(r"size_type count = edge\.second;", "size_t count = edge_count[ek];", 1),
+    V(r"edge_points\.first", "ep_first"), V(r"edge_points\.second", "ep_second"),
+    V(r"m_boundary_nodes\.insert\(([^()]*)\);", r"m_boundary_nodes[FSL_IDX1(\1, m_size)] = 1;"),
+    V(r"m_neighbors_indices\[([^\[\]]*)\]\.push_back\(([^()]*)\);",
+      r"{ FSL_PRE(NBN(\1) < NB_CAP); /* row capacity: at most n_neighbors_max neighbours per node (documented precondition of the mesh) */ NBI(\1, NBN(\1)) = (\2); }"),
+    V(r"m_neighbors_distances\[([^\[\]]*)\]\.push_back\(([^()]*)\);", r"{ NBD(\1, NBN(\1)) = (\2); NBN(\1) = NBN(\1) + 1; }"),
+    V(r"points\(([^(),]*), ([01])\)", r"points[FSL_IDX1(\1, m_size) * 2 + \2]"),
+    V(r"const auto (x1|y1|x2|y2) =", r"const double \1 ="),
+    V(r"auto distance =", "double distance ="),
+]
+
+# NOTE: the index list and the distance list of a node are two vectors pushed in lock step; the model keeps one length per node and
+# advances it at the distance push (the index push comes first in the body).  A body that pushes them out of step breaks the
+# row invariant below.
+sn_step = Unit(
+    name="tri_sn_step", file=TRI_H,
+    anchor=r"void trimesh_xt<S, N>::set_neighbors\(const points_type& points, const triangles_type& triangles\)",
+    inner=r"for \(const auto& edge : edges_count\)\s*\{",
+    sig="void tri_sn_step(size_t ek, %s)" % SN_PARAMS,
+    pre=SN_MODEL, rules=SN_STEP_RULES,
+    contract=SN_FRESH + r"""
+__CPROVER_requires(ek < n_edges)
+__CPROVER_assigns(__CPROVER_object_whole(m_boundary_nodes), __CPROVER_object_whole(m_neighbors_indices), __CPROVER_object_whole(m_neighbors_distances),
+                  __CPROVER_object_whole(m_neighbors_n))
+/* C18 at the ghost edge: both end points get each other as neighbour with the same distance; both are boundary nodes iff the edge
+ * belongs to a single triangle */
+__CPROVER_ensures(ek == TE ==> (NBN(edge_first[TE]) >= 1 && NBN(edge_second[TE]) >= 1))
+__CPROVER_ensures((ek == TE && edge_count[TE] == 1) ==> (m_boundary_nodes[edge_first[TE]] && m_boundary_nodes[edge_second[TE]]))
+__CPROVER_ensures((ek == TE && edge_first[TE] != edge_second[TE]) ==> (
+      NBI(edge_first[TE], NBN(edge_first[TE]) - 1) == edge_second[TE] && NBI(edge_second[TE], NBN(edge_second[TE]) - 1) == edge_first[TE]
+   && (NBD(edge_first[TE], NBN(edge_first[TE]) - 1) == NBD(edge_second[TE], NBN(edge_second[TE]) - 1)
+       || (isnan(NBD(edge_first[TE], NBN(edge_first[TE]) - 1)) && isnan(NBD(edge_second[TE], NBN(edge_second[TE]) - 1))))))
+/* frame at the ghost node: a node that is not an end point of this edge keeps its list, its list only grows, the boundary set only grows,
+ * and a node becomes a boundary node only as an end point of an edge seen once */
+__CPROVER_ensures((TG != edge_first[ek] && TG != edge_second[ek]) ==> (NBN(TG) == __CPROVER_old(NBN(TG)) && m_boundary_nodes[TG] == __CPROVER_old(m_boundary_nodes[TG])))
+__CPROVER_ensures(NBN(TG) >= __CPROVER_old(NBN(TG)))
+__CPROVER_ensures(__CPROVER_old(m_boundary_nodes[TG]) ==> m_boundary_nodes[TG])
+__CPROVER_ensures((m_boundary_nodes[TG] && !__CPROVER_old(m_boundary_nodes[TG])) ==> (edge_count[ek] == 1 && (TG == edge_first[ek] || TG == edge_second[ek])))
+""",
+)
+
+H_SN = r"""
+size_t nondet_size_t(void);
+void h_tri_sn_step(void)
+{
+    const size_t *ef, *es, *ec; const double *pts; _Bool *bn; size_t *ni, *nn; double *nd;
+    TG = nondet_size_t(); TE = nondet_size_t();
+    tri_sn_step(nondet_size_t(), nondet_size_t(), nondet_size_t(), ef, es, ec, pts, bn, ni, nd, nn);
+    __CPROVER_assert(0, "canary: postcondition point reachable");
+}
+"""
+GROUPS["C18"].append(Group(
+    name="trimesh.set_neighbors.step", units=[sn_step], harness=H_SN, entry="h_tri_sn_step", enforce="tri_sn_step", timeout=600, min_obligations=20,
+    clause="one unique edge of the mesh: both end points receive each other as neighbour with the same Euclidean distance expression; both end "
+           "points enter the boundary set iff the edge belongs to a single triangle; nothing else changes (frame at an arbitrary node)"))
+PROPS["C18"]["assumptions"].append("set_neighbors' second loop is decided per unique edge (outlined body); that the first loop's unordered_map yields exactly the unique edges with their "
+                                   "occurrence counts is assumed container semantics; neighbour rows have capacity 8 in the model (stated precondition instance)")
+PROPS["C18"]["unmechanised"] = ["from the per-edge contract to 'neighbours exactly when they share an edge, no duplicates': induction over the entry list of unique edges"]
+
+for _g in GROUPS["C18"]:
+    _g.replay = "replay/trimesh.cpp"
